@@ -130,6 +130,16 @@ def handle (cmd : String) (j : J) : Except String J :=
         | .error e => errJ e
         | .ok f => J.str (String.ofList (getSlice comp s f))
       pure (J.obj [("view", vj), ("str", J.str (String.ofList (SeqWrap.str comp s))), ("slice", sl)])
+  | "getslice_contig" => do
+    -- `feature.get_slice(allow_gaps=True)`: the contiguous form, read on the feature's strand
+    let v ← parseView (← j.get "view")
+    let parent ← (← j.get "parent").toStr
+    let comp : Char → Char := fun c =>
+      if c = 'A' then 'T' else if c = 'T' then 'A' else if c = 'C' then 'G' else if c = 'G' then 'C' else c
+    let s : SeqWrap.Seq := { parent := parent.toList, v := v, nucleic := true }
+    match featureOnView v (← (← j.get "minus").toBool) (← parseSpans (← j.get "spans")) with
+    | .error e => pure (errJ e)
+    | .ok f => pure (J.str (String.ofList (getSliceContig comp s f)))
   | "getslice" => do
     -- residue-level model: `feature.get_slice()` on a DNA sequence wrapper
     let v ← parseView (← j.get "view")
